@@ -61,6 +61,7 @@ type wscript struct {
 	code   codes.Code
 	emsg   string
 	mutate bool // the sender scribbles over a message right after sending it
+	late   bool // cancel/deadline terminals: the handler does not watch its context, it returns only when told to after the client is done
 }
 
 func (s wscript) String() string {
@@ -82,11 +83,11 @@ func (s wscript) String() string {
 		}
 	}
 	term := []string{"return-ok", fmt.Sprintf("return(%s,%q)", s.code, s.emsg), "client-cancel", "deadline"}[s.term]
-	return fmt.Sprintf("%s [%s] %s mutate=%v", []string{"unary", "sstream", "cstream", "bidi"}[s.shape], strings.Join(p, " "), term, s.mutate)
+	return fmt.Sprintf("%s [%s] %s mutate=%v late-handler=%v", []string{"unary", "sstream", "cstream", "bidi"}[s.shape], strings.Join(p, " "), term, s.mutate, s.late)
 }
 
 func genWrapScript(t *Tape) wscript {
-	s := wscript{shape: t.Choose(4), term: t.Choose(4), mutate: t.Flag(1, 3)}
+	s := wscript{shape: t.Choose(4), term: t.Choose(4), mutate: t.Flag(1, 3), late: t.Flag(1, 3)}
 	s.code = []codes.Code{codes.NotFound, codes.InvalidArgument, codes.Internal, codes.Unavailable, codes.PermissionDenied, codes.Aborted}[t.Choose(6)]
 	s.emsg = []string{"boom", "", "not here"}[t.Choose(3)]
 	n := t.Choose(6)
@@ -199,6 +200,7 @@ type scriptServer struct {
 	yield        func(op string) // scheduling point (no-op on the reference transport)
 	enter        func() func()   // handler entry/exit (adopts the handler goroutine as a task)
 	cancelClient func()
+	release      chan struct{} // closed by the client when its program is over
 	tr           *transcript
 	sent         int
 }
@@ -260,6 +262,9 @@ func (sv *scriptServer) run(st srvStream, ctx context.Context, recv func() (stri
 	case tCancel, tDeadline:
 		if sv.s.shape == 0 && sv.s.term == tCancel {
 			sv.cancelClient() // the client "cancels while the server is working": ordered after everything before
+		}
+		if sv.s.late {
+			<-sv.release // a handler busy with something that does not watch the context
 		}
 		<-ctx.Done()
 		return status.FromContextError(ctx.Err()).Err()
@@ -324,7 +329,8 @@ func (sv *scriptServer) BidiStream(st grpc.BidiStreamingServer[testproto.BidiStr
 
 // ---- the scripted client ----------------------------------------------------------------------------------------------------
 
-func runWrapClient(s wscript, client testproto.TestApiClient, yield func(string), tr *transcript, setCancel func(context.CancelFunc)) {
+func runWrapClient(s wscript, client testproto.TestApiClient, yield func(string), tr *transcript, setCancel func(context.CancelFunc), release chan struct{}) {
+	defer close(release)
 	ctx, cancel := context.WithCancel(context.Background())
 	defer cancel()
 	if s.term == tDeadline {
@@ -509,7 +515,7 @@ func runReference(s wscript) transcript {
 	lis := bufconn.Listen(1 << 16)
 	gs := grpc.NewServer()
 	var cancelClient context.CancelFunc
-	sv := &scriptServer{s: s, yield: func(string) {}, enter: func() func() { return func() {} }, tr: &tr}
+	sv := &scriptServer{s: s, yield: func(string) {}, enter: func() func() { return func() {} }, tr: &tr, release: make(chan struct{})}
 	sv.cancelClient = func() { cancelClient() }
 	testproto.RegisterTestApiServer(gs, sv)
 	done := make(chan struct{})
@@ -523,7 +529,7 @@ func runReference(s wscript) transcript {
 		tr.client = append(tr.client, "dial error: "+err.Error())
 		return tr
 	}
-	runWrapClient(s, testproto.NewTestApiClient(conn), func(string) {}, &tr, func(c context.CancelFunc) { cancelClient = c })
+	runWrapClient(s, testproto.NewTestApiClient(conn), func(string) {}, &tr, func(c context.CancelFunc) { cancelClient = c }, sv.release)
 	_ = conn.Close()
 	gs.Stop()
 	<-done
@@ -560,7 +566,7 @@ func wrapRun(w *World) {
 	}
 	var tr transcript
 	var cancelClient context.CancelFunc
-	sv := &scriptServer{s: s, tr: &tr}
+	sv := &scriptServer{s: s, tr: &tr, release: make(chan struct{})}
 	sv.cancelClient = func() { cancelClient() }
 	var srvTask *Task
 	sv.enter = func() func() {
@@ -573,7 +579,7 @@ func wrapRun(w *World) {
 	conn := wrap.ServerToClient(testproto.TestApi_ServiceDesc, sv)
 	client := testproto.NewTestApiClient(conn)
 	w.Go("cli", false, func(t *Task) {
-		runWrapClient(s, client, func(op string) { t.Yield(op) }, &tr, func(c context.CancelFunc) { cancelClient = c })
+		runWrapClient(s, client, func(op string) { t.Yield(op) }, &tr, func(c context.CancelFunc) { cancelClient = c }, sv.release)
 	})
 	if s.term == tDeadline {
 		w.IdleAdvance, w.IdleAdvanceN = 4*time.Second, 3
